@@ -15,6 +15,12 @@ CLAIMED = {
    text="All histories up to the stated depth over the alphabets add-shape/build/reset/query-panel (ShapeIndex), invert/query (Loop with 8/40/100 vertices, Polygon with hole / two shells) and FindEdges/Distance/IsDistanceLess/IsDistanceGreater/conservative tests on one reused Closest/FurthestEdgeQuery, CrossingEdgeQuery and ContainsPointQuery are executed on the implementation; after each history the last answer must equal the answer of fresh objects holding the same geometry and user options; deadlock and non-termination are detected structurally through the sync shim.",
    note="Bounded depth and alphabets; Remove is outside the property's alphabet; state merging uses a dump of the implementation's internal index state (over-fine, so it can only cost time).",
    design="DESIGN.md §3.5, §6 C13"),
+
+ "C15": dict(level="fault_enumeration", engine="E4 faults",
+   technique="exhaustive fault enumeration: every truncation, single-byte substitution, spliced varint pattern, float pattern, count-field boundary value (and pairs) and version byte of a corpus of valid encodings, each fed to all nine real Decode methods in worker sub-processes (address-space capped), returned values exercised through a query panel",
+   text="Every mutant of the stated classes of every corpus entry (all nine types, both polygon formats, snapped / off-centre / bound-encoded / zero-vertex loops) is decoded by every Decode method; a panic, an abnormal process exit, a stall, an accepted over-limit count, more than 64 MB allocated for an over-limit count, or a panic while querying a returned value is a violation.",
+   note="Enumeration is exhaustive over the corpus x mutation classes, not over all byte strings; mutants that declare a within-limit giant count are counted but not run (documented limits permit 1.2 GB allocations); termination is observed by a watchdog.",
+   design="DESIGN.md §3.7, §6 C15"),
 }
 
 PLANNED = {  # not yet claimed: each gets a reason in not_applicable until its check is committed
